@@ -16,52 +16,59 @@ use std::iter::Sum;
 use std::ops::{Add, Div, Mul, Neg, Sub};
 
 #[derive(Clone, Debug, PartialEq, PartialOrd)]
-pub struct StrictRat(pub Rat);
+pub struct StrictQ<const Z: bool>(pub Rat);
+/// type tag 2 (C08) / 4 (C07): sqrt stand-in of Rat (x^3 + 7x + 23, never zero on x >= 0)
+pub type StrictRat = StrictQ<false>;
+/// type tag 3 (C08): sqrt stand-in x^3 + 7x — zero at zero, positive on positive arguments, like
+/// the true square root: a zero vector has euclidean length zero and Householder's
+/// `element / &length` is 0 / 0 (a panic here) on a zero (sub-)column
+#[allow(dead_code)]
+pub type StrictRat0 = StrictQ<true>;
 
 pub const DIV_BY_ZERO: &str = "StrictRat: division by zero";
 
-impl StrictRat {
-    fn add_(&self, o: &StrictRat) -> StrictRat {
-        StrictRat(&self.0 + &o.0)
+impl<const Z: bool> StrictQ<Z> {
+    fn add_(&self, o: &StrictQ<Z>) -> StrictQ<Z> {
+        StrictQ(&self.0 + &o.0)
     }
-    fn sub_(&self, o: &StrictRat) -> StrictRat {
-        StrictRat(&self.0 - &o.0)
+    fn sub_(&self, o: &StrictQ<Z>) -> StrictQ<Z> {
+        StrictQ(&self.0 - &o.0)
     }
-    fn mul_(&self, o: &StrictRat) -> StrictRat {
-        StrictRat(&self.0 * &o.0)
+    fn mul_(&self, o: &StrictQ<Z>) -> StrictQ<Z> {
+        StrictQ(&self.0 * &o.0)
     }
-    fn div_(&self, o: &StrictRat) -> StrictRat {
+    fn div_(&self, o: &StrictQ<Z>) -> StrictQ<Z> {
         // Rat is always reduced with a positive denominator, so zero has exactly one representation
         if o.0 == Rat::int(0) {
             panic!("{}", DIV_BY_ZERO);
         }
-        StrictRat(&self.0 / &o.0)
+        StrictQ(&self.0 / &o.0)
     }
 }
 
 macro_rules! bin {
     ($Tr:ident, $m:ident, $f:ident) => {
-        impl $Tr<StrictRat> for StrictRat {
-            type Output = StrictRat;
-            fn $m(self, o: StrictRat) -> StrictRat {
+        impl<const Z: bool> $Tr<StrictQ<Z>> for StrictQ<Z> {
+            type Output = StrictQ<Z>;
+            fn $m(self, o: StrictQ<Z>) -> StrictQ<Z> {
                 self.$f(&o)
             }
         }
-        impl $Tr<&StrictRat> for StrictRat {
-            type Output = StrictRat;
-            fn $m(self, o: &StrictRat) -> StrictRat {
+        impl<const Z: bool> $Tr<&StrictQ<Z>> for StrictQ<Z> {
+            type Output = StrictQ<Z>;
+            fn $m(self, o: &StrictQ<Z>) -> StrictQ<Z> {
                 self.$f(o)
             }
         }
-        impl $Tr<StrictRat> for &StrictRat {
-            type Output = StrictRat;
-            fn $m(self, o: StrictRat) -> StrictRat {
+        impl<const Z: bool> $Tr<StrictQ<Z>> for &StrictQ<Z> {
+            type Output = StrictQ<Z>;
+            fn $m(self, o: StrictQ<Z>) -> StrictQ<Z> {
                 self.$f(&o)
             }
         }
-        impl $Tr<&StrictRat> for &StrictRat {
-            type Output = StrictRat;
-            fn $m(self, o: &StrictRat) -> StrictRat {
+        impl<const Z: bool> $Tr<&StrictQ<Z>> for &StrictQ<Z> {
+            type Output = StrictQ<Z>;
+            fn $m(self, o: &StrictQ<Z>) -> StrictQ<Z> {
                 self.$f(o)
             }
         }
@@ -72,103 +79,124 @@ bin!(Sub, sub, sub_);
 bin!(Mul, mul, mul_);
 bin!(Div, div, div_);
 
-impl Neg for StrictRat {
-    type Output = StrictRat;
-    fn neg(self) -> StrictRat {
-        StrictRat(-&self.0)
+impl<const Z: bool> Neg for StrictQ<Z> {
+    type Output = StrictQ<Z>;
+    fn neg(self) -> StrictQ<Z> {
+        StrictQ(-&self.0)
     }
 }
-impl Neg for &StrictRat {
-    type Output = StrictRat;
-    fn neg(self) -> StrictRat {
-        StrictRat(-&self.0)
+impl<const Z: bool> Neg for &StrictQ<Z> {
+    type Output = StrictQ<Z>;
+    fn neg(self) -> StrictQ<Z> {
+        StrictQ(-&self.0)
     }
 }
-impl Sum for StrictRat {
-    fn sum<I: Iterator<Item = StrictRat>>(iter: I) -> StrictRat {
-        iter.fold(StrictRat::zero(), |a, b| a.add_(&b))
+impl<const Z: bool> Sum for StrictQ<Z> {
+    fn sum<I: Iterator<Item = StrictQ<Z>>>(iter: I) -> StrictQ<Z> {
+        iter.fold(Self::zero(), |a, b| a.add_(&b))
     }
 }
-impl<'a> Sum<&'a StrictRat> for StrictRat {
-    fn sum<I: Iterator<Item = &'a StrictRat>>(iter: I) -> StrictRat {
-        iter.fold(StrictRat::zero(), |a, b| a.add_(b))
+impl<'a, const Z: bool> Sum<&'a StrictQ<Z>> for StrictQ<Z> {
+    fn sum<I: Iterator<Item = &'a StrictQ<Z>>>(iter: I) -> StrictQ<Z> {
+        iter.fold(Self::zero(), |a, b| a.add_(b))
     }
 }
-impl ZeroOne for StrictRat {
-    fn zero() -> StrictRat {
-        StrictRat(Rat::zero())
+impl<const Z: bool> ZeroOne for StrictQ<Z> {
+    fn zero() -> StrictQ<Z> {
+        StrictQ(Rat::zero())
     }
-    fn one() -> StrictRat {
-        StrictRat(Rat::one())
+    fn one() -> StrictQ<Z> {
+        StrictQ(Rat::one())
     }
 }
-impl FromUsize for StrictRat {
-    fn from_usize(n: usize) -> Option<StrictRat> {
-        Rat::from_usize(n).map(StrictRat)
+impl<const Z: bool> FromUsize for StrictQ<Z> {
+    fn from_usize(n: usize) -> Option<StrictQ<Z>> {
+        Rat::from_usize(n).map(StrictQ)
     }
 }
 
 macro_rules! un {
     ($Tr:ident, $m:ident) => {
-        impl $Tr for StrictRat {
-            type Output = StrictRat;
-            fn $m(self) -> StrictRat {
-                StrictRat((&self.0).$m())
+        impl<const Z: bool> $Tr for StrictQ<Z> {
+            type Output = StrictQ<Z>;
+            fn $m(self) -> StrictQ<Z> {
+                StrictQ((&self.0).$m())
             }
         }
-        impl $Tr for &StrictRat {
-            type Output = StrictRat;
-            fn $m(self) -> StrictRat {
-                StrictRat((&self.0).$m())
+        impl<const Z: bool> $Tr for &StrictQ<Z> {
+            type Output = StrictQ<Z>;
+            fn $m(self) -> StrictQ<Z> {
+                StrictQ((&self.0).$m())
             }
         }
     };
 }
-un!(Sqrt, sqrt);
+impl<const Z: bool> StrictQ<Z> {
+    fn sqrt_(&self) -> StrictQ<Z> {
+        if Z {
+            let x = &self.0;
+            StrictQ(&(&(x * x) * x) + &(&Rat::int(7) * x))
+        } else {
+            StrictQ((&self.0).sqrt())
+        }
+    }
+}
+impl<const Z: bool> Sqrt for StrictQ<Z> {
+    type Output = StrictQ<Z>;
+    fn sqrt(self) -> StrictQ<Z> {
+        self.sqrt_()
+    }
+}
+impl<const Z: bool> Sqrt for &StrictQ<Z> {
+    type Output = StrictQ<Z>;
+    fn sqrt(self) -> StrictQ<Z> {
+        self.sqrt_()
+    }
+}
 un!(Exp, exp);
 un!(Ln, ln);
 un!(Sin, sin);
 un!(Cos, cos);
 
-impl Pow<StrictRat> for StrictRat {
-    type Output = StrictRat;
-    fn pow(self, rhs: StrictRat) -> StrictRat {
-        StrictRat((&self.0).pow(&rhs.0))
+impl<const Z: bool> Pow<StrictQ<Z>> for StrictQ<Z> {
+    type Output = StrictQ<Z>;
+    fn pow(self, rhs: StrictQ<Z>) -> StrictQ<Z> {
+        StrictQ((&self.0).pow(&rhs.0))
     }
 }
-impl Pow<&StrictRat> for StrictRat {
-    type Output = StrictRat;
-    fn pow(self, rhs: &StrictRat) -> StrictRat {
-        StrictRat((&self.0).pow(&rhs.0))
+impl<const Z: bool> Pow<&StrictQ<Z>> for StrictQ<Z> {
+    type Output = StrictQ<Z>;
+    fn pow(self, rhs: &StrictQ<Z>) -> StrictQ<Z> {
+        StrictQ((&self.0).pow(&rhs.0))
     }
 }
-impl Pow<StrictRat> for &StrictRat {
-    type Output = StrictRat;
-    fn pow(self, rhs: StrictRat) -> StrictRat {
-        StrictRat((&self.0).pow(&rhs.0))
+impl<const Z: bool> Pow<StrictQ<Z>> for &StrictQ<Z> {
+    type Output = StrictQ<Z>;
+    fn pow(self, rhs: StrictQ<Z>) -> StrictQ<Z> {
+        StrictQ((&self.0).pow(&rhs.0))
     }
 }
-impl Pow<&StrictRat> for &StrictRat {
-    type Output = StrictRat;
-    fn pow(self, rhs: &StrictRat) -> StrictRat {
-        StrictRat((&self.0).pow(&rhs.0))
+impl<const Z: bool> Pow<&StrictQ<Z>> for &StrictQ<Z> {
+    type Output = StrictQ<Z>;
+    fn pow(self, rhs: &StrictQ<Z>) -> StrictQ<Z> {
+        StrictQ((&self.0).pow(&rhs.0))
     }
 }
-impl Pi for StrictRat {
-    fn pi() -> StrictRat {
-        StrictRat(Rat::pi())
+impl<const Z: bool> Pi for StrictQ<Z> {
+    fn pi() -> StrictQ<Z> {
+        StrictQ(Rat::pi())
     }
 }
 
-impl Enc for StrictRat {
+impl<const Z: bool> Enc for StrictQ<Z> {
     fn enc(&self) -> Sx {
         self.0.enc()
     }
-    fn dec(s: &Sx) -> Option<StrictRat> {
-        Rat::dec(s).map(StrictRat)
+    fn dec(s: &Sx) -> Option<StrictQ<Z>> {
+        Rat::dec(s).map(StrictQ)
     }
-    fn small(v: i64) -> StrictRat {
-        StrictRat(Rat::small(v))
+    fn small(v: i64) -> StrictQ<Z> {
+        StrictQ(Rat::small(v))
     }
 }
 
@@ -180,4 +208,5 @@ fn _assert_traits() {
     {
     }
     real::<StrictRat>();
+    real::<StrictRat0>();
 }
